@@ -91,6 +91,8 @@ class ModuleInfo:
         self.funcs = {}
         self.dicts = {}
         self.jit = set()
+        self.donated = {}
+        self.other_decorators = {}
         self.imports = []
         for node in self.tree.body:
             if isinstance(node, ast.FunctionDef):
@@ -98,8 +100,16 @@ class ModuleInfo:
                     raise ArtefactError("Redefinition", f"function {node.name} defined twice")
                 self.funcs[node.name] = node
                 for d in node.decorator_list:
-                    if ast.unparse(d) == "jax.jit":
+                    src = ast.unparse(d)
+                    if src == "jax.jit":
                         self.jit.add(node.name)
+                    elif "jit" in src:
+                        # jax.jit(...) / partial(jax.jit, ...): traced like jax.jit; buffer donation deletes the caller's array
+                        self.jit.add(node.name)
+                        if "donate" in src:
+                            self.donated[node.name] = src
+                    else:
+                        self.other_decorators[node.name] = src
             elif isinstance(node, ast.Assign) and len(node.targets) == 1 and isinstance(node.targets[0], ast.Name):
                 try:
                     self.dicts[node.targets[0].id] = ast.literal_eval(node.value)
